@@ -85,9 +85,10 @@ def build_geo(spec, repo):
 class GeoCtx(object):
     """A built geometry with everything derived from it once."""
 
-    def __init__(self, spec, repo):
+    def __init__(self, spec, repo, geo=None):
+        """geo: an already built (possibly edited, already queried) mulgrid to wrap instead of building spec"""
         self.spec = spec
-        self.geo = g = build_geo(spec, repo)
+        self.geo = g = geo if geo is not None else build_geo(spec, repo)
         self.cols = cols = list(g.columnlist)
         self.n = len(cols)
         self.index = {id(c): i for i, c in enumerate(cols)}
@@ -225,6 +226,18 @@ def geometry_specs(rng, thorough):
             specs.append({'label': 'gaps', 'kind': 'rect', 'dx': [dyadic(rng, 20, 200) for _ in range(nx)],
                           'dy': [dyadic(rng, 20, 200) for _ in range(ny)], 'dz': [10.0, 10.0],
                           'origin': [0.0, 0.0, 0.0], 'delete': sorted(rng.sample(range(n), rng.randint(1, n // 3)))})
+    # 5b. column sizes over orders of magnitude AND gaps (notch + hole): large columns are filed in the quadtree far from
+    #     parts of their own area, and the neighbour wave cannot cross the gaps
+    specs.append({'label': 'gaps-multiscale', 'kind': 'rect', 'dx': [1000.0, 10.0, 100.0, 1000.0, 1000.0],
+                  'dy': [100.0, 1000.0, 1000.0], 'dz': [10.0, 10.0], 'origin': [0.0, 0.0, 0.0], 'delete': [2, 6]})
+    if thorough:
+        for rep in range(3):
+            sizes = [1.0, 10.0, 100.0, 1000.0]
+            dx = [rng.choice(sizes) for _ in range(rng.randint(4, 7))]
+            dy = [rng.choice(sizes) for _ in range(rng.randint(3, 6))]
+            n = len(dx) * len(dy)
+            specs.append({'label': 'gaps-multiscale', 'kind': 'rect', 'dx': dx, 'dy': dy, 'dz': [10.0, 10.0],
+                          'origin': [0.0, 0.0, 0.0], 'delete': sorted(rng.sample(range(n), rng.randint(2, max(2, n // 4))))})
     # 6. shipped geometries
     if thorough:
         names = shipped
